@@ -251,6 +251,14 @@ def kinetic_models(tier):
                                 if form != "bolus" and (scale, lag, bio) not in (("Sn", False, False), ("none", True, True)):
                                     continue
                             out.append(_closed_model(advan, trans, scale, lag, bio, form))
+    # observation records that name another compartment than the default one in the CMT data item; every combination of
+    # scale definitions (default compartment through Sn or SC or not at all, observed compartment scaled or not)
+    for advan, trans, other in ((3, 4, 2), (4, 4, 3), (11, 4, 3), (12, 4, 4), (4, 1, 3)):
+        dose, obs = dose_obs(advan)
+        for dflt in ("", f"S{obs}", "SC"):
+            for oth in ("", f"S{other}"):
+                names = "+".join(x for x in (dflt, oth) if x)
+                out.append(_closed_model(advan, trans, "obs:" + names if names else "none", False, False, "bolus", cmtcol=(dose, other)))
     out.extend(general_models(tier))
     return out
 
@@ -262,6 +270,10 @@ def _closed_model(advan, trans, scale, lag, bio, form, cmtcol=None):
         params.append((f"S{obs}", 0.5))
     elif scale == "SC":
         params.append(("SC", 0.5))
+    elif scale.startswith("obs:"):
+        # observations in another compartment (CMT data item): scale of the default compartment / of the observed one
+        for nm in scale[4:].split("+"):
+            params.append((nm, {"SC": 0.5}.get(nm, 0.5 if nm == f"S{obs}" else 0.02)))
     if lag:
         params.append((f"ALAG{dose}", 0.4))
     if bio:
